@@ -83,8 +83,63 @@ let run_history (toks : string list) : string =
       String.concat " ; " res
   | _ -> "BADHISTORY"
 
+(* T lines: the same events through the select-loop model ClientLoop.lstep (see harness/h_clihist.c) *)
+let g_lastchunk = ref 0
+
+let run_loop (toks : string list) : string =
+  match toks with
+  | uid :: dom :: codec :: maxlen :: qtype :: edns :: lazy_ :: dns :: st :: chunkid :: seed :: now :: rest ->
+      let s0 = client_init (nn (ios uid)) (bytes_of_hex dom) (nn (ios codec)) (nat (ios maxlen)) (nn (ios qtype))
+          (ios edns <> 0) (ios lazy_ <> 0) (ios dns <> 0) (nn (ios st)) (nn (ios chunkid)) (nn (ios seed)) (nn (ios now)) in
+      let l = ref { l_c = { s0 with c_datacmc = nat !g_datacmc; c_packrecv = nn !g_packrecv; c_packrecv_oos = nn !g_oos;
+                                    c_servfail = nn !g_servfail };
+                    l_lastchunk = nn !g_lastchunk } in
+      let events = String.split_on_char ';' (String.concat " " rest) in
+      let res = Stdlib.List.filter_map (fun ev ->
+          let t = Stdlib.List.filter (fun x -> x <> "") (String.split_on_char ' ' (String.trim ev)) in
+          let apply e =
+            let (l', outs) = lstep zc_frame unz_frame !l e in
+            l := l';
+            let s' = l'.l_c in
+            g_datacmc := int_of_nat s'.c_datacmc; g_packrecv := int_of_n s'.c_packrecv;
+            g_oos := int_of_n s'.c_packrecv_oos; g_servfail := int_of_n s'.c_servfail;
+            g_lastchunk := int_of_n l'.l_lastchunk;
+            Some (show outs s') in
+          match t with
+          | [] -> None
+          | [ "U"; now; pk ] -> apply (LTun (nn (ios now), bytes_of_hex pk))
+          | [ "B"; now; pk; dg ] -> apply (LBoth (nn (ios now), bytes_of_hex pk, bytes_of_hex dg))
+          | [ "D"; now; dg ] -> apply (LDns (nn (ios now), bytes_of_hex dg))
+          | [ "O"; now ] -> apply (LTimeout (nn (ios now)))
+          | [ "A"; now; idmode; firstc; aqtype; denc; ackmode; dh ] ->
+              let c = !l.l_c in
+              let idm = ios idmode in
+              let id = if idm = 0 then c.c_chunkid else if idm = 1 then c.c_prev else if idm = 2 then c.c_prev2 else nn idm in
+              let data = bytes_of_hex dh in
+              let am = ios ackmode in
+              let data =
+                match data with
+                | b0 :: tl when am <> 0 ->
+                    let fr = ((z_to_int c.c_out.k_fragment) - (if am = 2 then 1 else 0)) land 15 in
+                    nn (((int_of_n b0) land 0x80) lor (((int_of_n c.c_out.k_seqno) land 7) lsl 4) lor fr) :: tl
+                | _ -> data in
+              let name = nn (ios firstc) :: bytes_of_hex "616161612e742e6578616d706c652e636f6d" in
+              let stopped = int_of_n c.c_lastdown + 60 < ios now || not c.c_running in
+              if stopped then apply (LTimeout (nn (ios now)))
+              else begin
+                let (dg, td') = write_dns { q_name = name; q_type = nn (ios aqtype); q_id = id } data (nn (ios denc)) !td in
+                td := td';
+                match dg with
+                | Some d -> apply (LDns (nn (ios now), d))
+                | None -> apply (LTimeout (nn (ios now)))
+              end
+          | _ -> Some "BADEVENT") events in
+      String.concat " ; " res
+  | _ -> "BADHISTORY"
+
 let run_line (line : string) : string =
   let toks = Stdlib.List.filter (fun x -> x <> "") (String.split_on_char ' ' (String.trim line)) in
   match toks with
   | "J" :: rest -> run_history rest
+  | "T" :: rest -> run_loop rest
   | _ -> "UNKNOWN-CASE"
